@@ -1,6 +1,7 @@
 package symex
 
 import (
+	"fmt"
 	"go/types"
 	"strings"
 
@@ -42,7 +43,8 @@ func (e *Exec) makeEnvValue(t types.Type, name string) Value {
 		e.addSite(NondetSite{Key: site, Kind: "i64", Term: bt})
 		// block time is a plausible UnixNano (after 1970, before 2262)
 		e.assume(smt.SGt(bt, c0))
-		return Opaque{Kind: "ctx", Data: &CtxData{BlockTime: bt, Name: site}}
+		e.path.nextObj++
+		return Opaque{Kind: "ctx", Data: &CtxData{BlockTime: bt, Name: fmt.Sprintf("%s@%d", site, e.path.nextObj)}}
 	case strings.HasSuffix(np, "codec.Codec") || strings.HasSuffix(np, "codec.BinaryCodec") || strings.HasSuffix(np, "codec.JSONCodec"):
 		return Iface{Typ: storeMarkerType, Val: Opaque{Kind: "codec", Data: "cdc"}}
 	case strings.HasSuffix(np, "store/types.StoreKey"):
